@@ -108,6 +108,8 @@ let finish_case (out : string list) =
     match String.split_on_char ':' same_tok with
     | [ "diff-error-text"; a; b ] ->
         Printf.sprintf "repeated parse of the same bytes differs in the error text: <%s> vs <%s>" (printable a) (printable b)
+    | [ "diff-aliased-buffer" ] ->
+        "Defs() changed when the caller's buffer, reused after the parse, was overwritten (0xFF bytes, then another text): the parsed definitions alias the input bytes"
     | _ -> "repeated parse of the same bytes differs (outcome kind, position or Defs())"
   in
   let idefs, undumpable = try (defs_of_lines (List.rev !alines), false) with Failure _ -> ([], true) in
@@ -228,6 +230,11 @@ let handle line =
         alines := []
     | "OUT" :: out -> finish_case out
     | [ "COV"; kind ] -> note_case ~nontrivial:false kind ""
+    | [ "HIST"; kind; "same" ] -> note_case ~nontrivial:false kind ""
+    | "HIST" :: kind :: "diff" :: details ->
+        note_case ~nontrivial:false kind "";
+        Printf.printf "PFAIL %s %s || clause=a text that is parsed again later in the same process, after other (also failing) parses, does not give its first outcome again (kind, position, error text, Defs())\n"
+          kind (String.concat " " details)
     | [ "NUM"; s; f; u; a; uk ] ->
         let b = bytes_of_s s in
         let mf = opt_hex (parse_float b) in
